@@ -209,6 +209,18 @@ def r2_routes(rep, ctx):
                 if cand in (("field", "_dimension"), ("field", "dimension"), ("call", ("field", "GetDimension"), (), ())):
                     ok = True
         rep.check(ok, "C11.R2", "%s:rebuilds-with-own-dimension" % meth, "%s rebuilds through the constructor with the own dimension first" % meth, "%s does not rebuild through FixedArray(<own dimension>, ...)" % meth, fn=fn)
+    # the shared CreateCopy forwards its extra keyword arguments (FixedArray passes `dimension` this way) on every route
+    cc = m.method("AbstractValueWithQuantityObject", "CreateCopy")
+    kwname = cc.node.args.kwarg.arg if cc.node.args.kwarg is not None else None
+    if kwname is None:
+        raise AnalysisError("AbstractValueWithQuantityObject.CreateCopy has no **kwargs parameter")
+    cw = [c for c in own_nodes(cc.node) if isinstance(c, ast.Call) and isinstance(c.func, ast.Attribute) and c.func.attr == "CreateWithQuantity"]
+    if not cw:
+        raise AnalysisError("AbstractValueWithQuantityObject.CreateCopy: no CreateWithQuantity call found")
+    for c in sorted(cw, key=lambda c: c.lineno):
+        fwd = any(k.arg is None and isinstance(k.value, ast.Name) and k.value.id == kwname for k in c.keywords)
+        rep.check(fwd, "C11.R2", "CreateCopy:forwards-kwargs:%s" % norm(ast.unparse(c))[:70], "the copy is created with the extra keyword arguments of the caller (FixedArray's dimension)",
+                  "this route of CreateCopy drops **%s: a FixedArray copied on it takes its dimension from len(values) instead of the original's dimension" % kwname, node=c, fn=cc)
     # subclasses of FixedArray must not override the gate without calling it
     for c in m.subclasses("FixedArray"):
         if c == "FixedArray":
